@@ -1,4 +1,4 @@
-from checks import rbc, codec, box, orch
+from checks import rbc, codec, box, orch, c10
 
 REGISTRY = {
     "C02": rbc.run,
@@ -7,6 +7,7 @@ REGISTRY = {
     "C13": codec.run,
     "C15": box.run,
     "C14": box.run,
+    "C10": c10.run,
     "C06": orch.run,
     "C11": orch.run,
     "C12": orch.run,
@@ -74,7 +75,18 @@ META["C14"] = dict(engine="box", note=BOX_NOTE + " Concurrent half: lock-granula
          "genuine upstream defects needing a restructuring of the locking, recorded as known findings C14-a/b/c; any other failure "
          "(e.g. a double hand-over) is a violation.")
 
+META["C10"] = dict(engine="c10",
+    note="Trusted: Coq kernel, no axioms. Per-entry-point totality theorems over the engines' models (each tied to the code by its own engine's "
+         "correspondence; this check re-runs the RBC one); ASN.1/protobuf/x509/TLS/curve parsing is not modelled and is covered by the harness "
+         "streams under recover + watchdog only.",
+    text="Totality (never Panic, for every byte string and every state) proved for the MPC and synchroniser decoders, the dispatcher->filter->RBC "
+         "path, the silent-mode buffer, the session orchestrator, the frame reader and the connection handshake, with isolation lemmas; eighteen "
+         "peer-triggered panics of the pinned tree repaired (fix: commits); every engine's malformed stream is run against the real code in every "
+         "session state with a panic-and-hang monitor.")
+
 ENGINES = {
+    "c10": dict(path="coq/theories/Props/C10.v + harness/core/fuzz.go + checks/c10.py (+ every engine's malformed stream)", props=["C10"],
+                kind="aggregation of per-entry-point totality theorems; fuzz of the real dispatcher in every session state"),
     "orch": dict(path="coq/theories/Orch + harness/core/orch.go + checks/orch.py", props=["C06", "C11", "C12"],
                  kind="Coq model of session life cycle and id translation; Go harness drives a real Scheme with scripted sync/backend"),
     "box": dict(path="coq/theories/Box + harness/core/box.go + checks/box.py", props=["C14", "C15"],
